@@ -1,5 +1,8 @@
 #pragma once
 
+#include <ctype.h>
+#include <errno.h>
+
 #include <optional>
 #include <string>
 #include <unordered_map>
@@ -179,6 +182,7 @@ private:
   static RetT parse_int(const IdentT& id, const std::string& text, IntFormat format) {
     int64_t v;
     char* conversion_end;
+    errno = 0;
     switch (format) {
       case IntFormat::DEFAULT:
         v = strtoull(text.c_str(), &conversion_end, 0);
@@ -210,8 +214,25 @@ private:
     if (*conversion_end != '\0') {
       throw std::invalid_argument(exc_prefix(id) + "extra data after integer");
     }
+    if (errno == ERANGE) {
+      throw std::invalid_argument(exc_prefix(id) + "value out of range");
+    }
 
     uint64_t uv = static_cast<uint64_t>(v);
+    if (sizeof(RetT) < sizeof(uv)) {
+      // strtoull negates the magnitude modulo 2^64 when the text has a minus
+      // sign, so a magnitude of 2^63 or more comes back with the opposite sign
+      // and could pass the mask tests below as a small value
+      const char* sign = text.c_str();
+      while (isspace(static_cast<unsigned char>(*sign))) {
+        sign++;
+      }
+      bool is_negative = (*sign == '-');
+      bool wrapped = is_negative ? (v > 0) : (v < 0);
+      if (wrapped || (std::is_unsigned_v<RetT> && is_negative && (v != 0))) {
+        throw std::invalid_argument(exc_prefix(id) + "value out of range");
+      }
+    }
     if (std::is_unsigned_v<RetT>) {
       if (uv & (~mask_for_type<RetT>)) {
         throw std::invalid_argument(exc_prefix(id) + "unsigned value out of range");
